@@ -39,15 +39,26 @@ pub struct History {
     pub wide: bool,
 }
 
-pub const SMALL_PATHS: [&str; 3] = ["a", "b/c", "x"];
-pub const WIDE_PATHS: [&str; 5] = ["a", "b/c", "", "é/ü", "a/b/c//d"];
+/// (argument given to set_path, resource key the registry must use)
+pub const SMALL_PATHS: [(&str, &str); 3] = [("a", "a"), ("b/c", "b/c"), ("x", "x")];
+pub const WIDE_PATHS: [(&str, &str); 7] = [
+    ("a", "a"),
+    ("b/c", "b/c"),
+    ("", ""),
+    ("é/ü", "é/ü"),
+    ("a/b/c//d", "a/b/c//d"),
+    // set_path strips one leading slash: the segments are ["", "a"], so the
+    // resource is "/a", distinct from "a"
+    ("//a", "/a"),
+    ("a/", "a/"),
+];
 pub const TOKENS: [&[u8]; 4] = [&[0x0A], &[0x0B, 0x0C], &[], &[1, 2, 3, 4, 5, 6, 7, 8]];
 
 fn ep_name(i: u8) -> String {
     format!("ep{i}")
 }
 
-fn paths(wide: bool) -> &'static [&'static str] {
+fn paths(wide: bool) -> &'static [(&'static str, &'static str)] {
     if wide {
         &WIDE_PATHS
     } else {
@@ -165,7 +176,7 @@ impl ReqTable {
         for ep in 0..MAX_EP {
             for token in 0..TOKENS.len() {
                 for name in names.iter() {
-                    reqs.push(request(ep as u8, token as u8, name, 0));
+                    reqs.push(request(ep as u8, token as u8, name.0, 0));
                 }
             }
         }
@@ -183,7 +194,7 @@ thread_local! {
         std::cell::RefCell::new((ReqTable::new(false), ReqTable::new(true)));
 }
 
-fn apply_impl(s: &mut Subject<String>, op: &Op, names: &[&str]) {
+fn apply_impl(s: &mut Subject<String>, op: &Op, names: &[(&str, &str)]) {
     let wide = names.len() == WIDE_PATHS.len();
     TABLES.with(|t| {
         let mut t = t.borrow_mut();
@@ -191,7 +202,7 @@ fn apply_impl(s: &mut Subject<String>, op: &Op, names: &[&str]) {
         match *op {
             Op::Register { ep, token, path } => s.register(tab.get(ep, token, path)),
             Op::Deregister { ep, token, path } => s.deregister(tab.get(ep, token, path)),
-            Op::Changed { path, mid, con } => s.resource_changed(names[path as usize], mid, con),
+            Op::Changed { path, mid, con } => s.resource_changed(names[path as usize].1, mid, con),
             Op::Ack { ep, mid } => {
                 let r = &mut tab.acks[ep as usize % MAX_EP];
                 r.message.header.message_id = mid;
@@ -289,6 +300,7 @@ fn run_history(h: &History, which: Which, acc: &mut Acc) -> Result<Facts, Fail> 
         };
         let structural_op = matches!(op, Op::Register { .. } | Op::Deregister { .. });
         for (pi, name) in names.iter().enumerate() {
+            let name = &name.1;
             let pi = pi as u8;
             let want = model.resources.get(&pi);
             let prev_seq = last_seq.get(&pi).copied().unwrap_or(0);
@@ -349,6 +361,17 @@ fn run_history(h: &History, which: Which, acc: &mut Acc) -> Result<Facts, Fail> 
                             "c15-ack-changed-list"
                         } else {
                             "c15-eviction"
+                        };
+                        // same observers, other order: the registry order is
+                        // C14's business whatever operation disturbed it
+                        let mut a = got_list.clone();
+                        let mut b = want_list.clone();
+                        a.sort();
+                        b.sort();
+                        let (sig, owner) = if !dup && a == b {
+                            ("c14-order-changed", "C14")
+                        } else {
+                            (sig, owner)
                         };
                         let f = Fail::new(
                             sig,
@@ -497,14 +520,14 @@ pub fn alphabet() -> Vec<Op> {
         }
     }
     for path in 0..3u8 {
-        for mid in [1u16, 2] {
+        for mid in [0u16, 1] {
             for con in [true, false] {
                 v.push(Op::Changed { path, mid, con });
             }
         }
     }
     for ep in 0..2u8 {
-        for mid in [1u16, 2] {
+        for mid in [0u16, 1] {
             v.push(Op::Ack { ep, mid });
         }
     }
@@ -512,7 +535,7 @@ pub fn alphabet() -> Vec<Op> {
 }
 
 fn op_strategy(wide_eps: u8, ntok: u8, npaths: u8) -> BoxedStrategy<Op> {
-    let mid = prop_oneof![3 => 1u16..4, 1 => any::<u16>()];
+    let mid = prop_oneof![3 => 0u16..4, 1 => any::<u16>(), 1 => Just(0u16), 1 => Just(u16::MAX)];
     prop_oneof![
         4 => (0..wide_eps, 0..ntok, 0..npaths).prop_map(|(ep, token, path)| Op::Register { ep, token, path }),
         2 => (0..wide_eps, 0..ntok, 0..npaths).prop_map(|(ep, token, path)| Op::Deregister { ep, token, path }),
@@ -546,7 +569,7 @@ pub fn rounds_to_history(r: &Rounds) -> History {
         Op::Register { ep: 0, token: 0, path: 0 },
         Op::Register { ep: 1, token: 1, path: 0 },
     ];
-    let mut mid: u16 = 10;
+    let mut mid: u16 = if r.rounds.len() % 2 == 0 { 10 } else { 0xFFF0 };
     for (con, ack) in &r.rounds {
         let prev = mid;
         mid = mid.wrapping_add(1);
@@ -657,7 +680,7 @@ fn check_notifications_from_registry(_ctx: &Ctx, h: &History, acc: &mut Acc) -> 
             return Ok(()); // panics are reported by the history check
         }
         if let Op::Changed { path, mid, con } = op {
-            if let Some(r) = subject.get_resource(names[*path as usize]) {
+            if let Some(r) = subject.get_resource(names[*path as usize].1) {
                 if let Some(prev) = last.get(path) {
                     for o in &r.observers {
                         let n0 = create_notification(*mid, o.token.clone(), *prev, vec![1], *con);
@@ -668,7 +691,7 @@ fn check_notifications_from_registry(_ctx: &Ctx, h: &History, acc: &mut Acc) -> 
                                 b > a || r.observers.is_empty(),
                                 "c15-notifications-not-ordered",
                                 "successive notifications for {:?} carry Observe {a} then {b}",
-                                names[*path as usize]
+                                names[*path as usize].1
                             );
                         }
                         ensure!(
@@ -713,7 +736,7 @@ pub fn run(ctx: &Ctx, rep: &mut Report, which: Which) {
         rep,
         name,
         &format!(
-            "every operation sequence of length 1..={depth} over {a} operations (2 endpoints x 2 tokens x 2 observed paths + a never-registered path x 2 message ids x CON/NON) for unacknowledged limits {limits:?}, replayed from a fresh Subject and compared with the reference model after every step; distinct by construction; non-trivial = {}",
+            "every operation sequence of length 1..={depth} over {a} operations (2 endpoints x 2 tokens x 2 observed paths + a never-registered path x message ids 0 and 1 x CON/NON) for unacknowledged limits {limits:?}, replayed from a fresh Subject and compared with the reference model after every step; distinct by construction; non-trivial = {}",
             match which {
                 Which::C14 => ">= 2 endpoints or >= 2 paths live at once and at least one deregistration hit or re-registration",
                 Which::C15 => "an eviction, or an acknowledgement that resets a non-zero count",
@@ -758,12 +781,12 @@ pub fn run(ctx: &Ctx, rep: &mut Report, which: Which) {
         ctx,
         rep,
         "random-long-histories",
-        "random histories of up to 200 operations over 6 endpoints x 4 tokens x 5 paths (with '/', empty, non-ASCII) and limits {0,1,2,3,10,255}; compared with the model after every step; distinct by history hash",
+        "random histories of up to 200 operations over 6 endpoints x 4 tokens (incl. the empty token) x 7 paths (with '/', empty, non-ASCII, a leading empty segment, a trailing slash) and limits {0,1,2,3,10,255}; compared with the model after every step; distinct by history hash",
         n,
         || {
             (
                 proptest::sample::select(vec![0u8, 1, 2, 3, 10, 255]),
-                proptest::collection::vec(op_strategy(6, 4, 5), 0..200),
+                proptest::collection::vec(op_strategy(6, 4, WIDE_PATHS.len() as u8), 0..200),
             )
                 .prop_map(|(limit, ops)| History { limit, ops, wide: true })
         },
